@@ -26,7 +26,7 @@ func (c14) NumCases(tier string) int {
 	if tier == "thorough" {
 		return 900_000
 	}
-	return 3_600
+	return 3_000
 }
 
 func (c14) Describe() CheckInfo {
